@@ -21,6 +21,7 @@ RULE = ("every generator of C02-C08 (all expression forms, joins, groups, unions
 
 def probes(rnd):
     rows = [{"a": rnd.choice([1, 2, 3]), "s": rnd.choice(["x", "y"]), "arr": [1, [2, 3]], "o": {"k": 1},
+             "wide": {"k1": 1, "k2": "two", "k3": True, "k4": None, "k5": 5, "k6": "six"},
              "items": [{"x": 1}, {"x": 2}]} for _ in range(rnd.randint(0, 4))]
     doc = {"t": rows, "meta": [{"v": 1}], "grid": [[{"k": 1}, {"k": 2}], [], [{"k": 3}]]}
     forms = [
@@ -81,6 +82,11 @@ def probes(rnd):
         # digests / encodings are functions of their arguments only (not of what was hashed before in this process)
         ("hash", "SELECT HASH(s, 'sha256') AS h, HASH(a, 'md5') AS m, HASH(s, 'sha1') AS g FROM t"),
         ("encode", "SELECT ENCODE(s, 'base64') AS e, ENCODE(a, 'hex') AS x FROM t"),
+        # … of objects and arrays: refused or not, the outcome is the same every time (a map has no order of its own)
+        ("hash-object", "SELECT HASH(wide, 'sha256') AS h FROM t"),
+        ("encode-object", "SELECT ENCODE(wide, 'hex') AS e FROM t"),
+        ("hash-array", "SELECT HASH(arr, 'md5') AS h, HASH(items, 'sha1') AS g FROM t"),
+        ("hash-object-where", "SELECT a FROM t WHERE HASH(wide, 'md5') = HASH(wide, 'md5')"),
         # ASYNC under DISTINCT / ORDER BY / UNION (repair D51), and nested in other calls (known finding KF-async-nested)
         ("async-distinct", "SELECT DISTINCT ASYNC.VF_SLOW('t', s) AS v FROM t"),
         ("async-order", "SELECT ASYNC.VF_SLOW('t', a) AS v, s FROM t ORDER BY v DESC"),
